@@ -117,6 +117,16 @@ def run(ctx):
         for k in (rng.choice((33, 34, 36, 40, 47)), rng.choice(exps)):
             tables.append(("sparse k=%d" % k, ["-lift", "sparse", "-k", str(k)], ["andsc", "orsc"]))
 
+    # call histories on a wider universe (no table, no TLC: the storage clause only): results kept across later calls
+    hout = os.path.join(ctx.subdir("tab"), "hist.json")
+    r = ctx.run([binp, "-B", "12" if thorough else "9", "-hist", "-lift", "none", "-out", hout], timeout=1200)
+    if r.returncode != 0:
+        raise ToolingError("intervalreplay -hist failed: " + r.stderr[-2000:])
+    hst = json.loads(r.stdout)
+    if hst.get("kept_results_changed") or hst.get("results_sharing_storage_with_kept"):
+        ctx.violation("lib/interval: results share storage across calls: %d kept results changed by later calls, %d results share a *big.Int with a kept result or an operand; e.g. %s" % (
+            hst.get("kept_results_changed", 0), hst.get("results_sharing_storage_with_kept", 0), hst.get("history_example")),
+            {"key": "storage:call-history", "table": "history", "example": hst.get("history_example")})
     rows_total = lifted_total = 0
     samples = []
     nontrivial = 0
